@@ -33,7 +33,8 @@ def _gcc_filter(fname: str, fp: typing.TextIO) -> str:
         if line.startswith("# "):
             last_quote = line.rfind('"')
             if last_quote != -1:
-                keep = line[:last_quote].endswith(fname)
+                first_quote = line.find('"')
+                keep = line[first_quote + 1 : last_quote] == fname
 
         if keep:
             new_output.write(line)
@@ -266,14 +267,14 @@ def _pcpp_filter(
     # isn't what a typical user of cxxheaderparser would want, so we strip out
     # the line directives and any content that isn't in our original file
 
-    line_ending = f'{fname}"\n'
+    line_ending = f'"{fname}"\n'
 
     new_output = io.StringIO()
     keep = True
 
     for line in fp:
         if line.startswith("#line"):
-            keep = line.endswith(line_ending)
+            keep = line[line.find('"') :] == line_ending
             if deps is not None:
                 start = line.find('"')
                 deps[line[start + 1 : -2]] = True
